@@ -41,4 +41,62 @@ def wfqL : List Expr → Bool
   | e :: es => wfq e && wfqL es
 end
 
+/-! ### normal forms (C14): what the simplifier leaves behind -/
+
+/-- a constant projection applied directly to a literal it can be taken out of -/
+def isLitProjRedex (v s : Expr) : Bool :=
+  match s with
+  | .const (.int n) =>
+    (match v with
+     | .tuple _ => decide (n ≥ 0)
+     | .list _ => decide (n ≥ 0)
+     | .dict ks vs => (dictLookup ks vs (.int n)).isSome
+     | _ => false)
+  | .const (.str k) =>
+    (match v with
+     | .dict ks vs => (dictLookup ks vs (.str k)).isSome
+     | _ => false)
+  | _ => false
+
+/-- an attribute that names a key of the dictionary literal it is applied to -/
+def isAttrRedex (v : Expr) (a : String) : Bool :=
+  match v with
+  | .dict ks vs => (dictLookup ks vs (.str a)).isSome
+  | _ => false
+
+/-- the operator `n` applied to a source that is itself an operator call it fuses with -/
+def isFusable (n : String) (parent : Expr) : Bool :=
+  match opCall? parent with
+  | some (m, _) =>
+    ((n = "Select" || n = "SelectMany") && (m = "Select" || m = "SelectMany")) ||
+    (n = "Where" && (m = "Where" || m = "Select" || m = "SelectMany"))
+  | Option.none => false
+
+mutual
+/-- normal form: no projection sits on a literal it can be taken out of or on a `First`, and no operator call sits
+    on a source it fuses with -/
+def nf : Expr → Bool
+  | .name _ => true
+  | .const _ => true
+  | .attr v a => nf v && !isAttrRedex v a && (firstArg? v).isNone
+  | .lam _ b => nf b
+  | .sub v s => nf v && nf s && !isLitProjRedex v s && (firstArg? v).isNone
+  | .tuple es => nfL es
+  | .list es => nfL es
+  | .dict ks vs => nfL ks && nfL vs
+  | .op _ es => nfL es
+  | .comp _ e t i ifs _ => nf e && nf t && nf i && nfL ifs
+  | .call f args _ kwv =>
+    nfL args && nfL kwv &&
+      (match f with
+       | .name n => (match args with
+          | parent :: _ => !isFusable n parent
+          | [] => true)
+       | .attr v m => nf v && !isAttrRedex v m      -- a method head: may sit on a First (left to the backend)
+       | f => nf f)
+def nfL : List Expr → Bool
+  | [] => true
+  | e :: es => nf e && nfL es
+end
+
 end Fadl
